@@ -30,6 +30,7 @@ import (
 	"github.com/vulcand/oxy/v2/memmetrics"
 	"github.com/vulcand/oxy/v2/ratelimit"
 	"github.com/vulcand/oxy/v2/roundrobin"
+	"github.com/vulcand/oxy/v2/roundrobin/stickycookie"
 	"github.com/vulcand/oxy/v2/stream"
 	"github.com/vulcand/oxy/v2/trace"
 	"github.com/vulcand/oxy/v2/utils"
@@ -378,6 +379,66 @@ func stressRateLimit(c cfgT, r *result) {
 		r.kv(fmt.Sprintf("cap%d.requests", capacity), n)
 		r.kv(fmt.Sprintf("cap%d.admitted", capacity), ok.sum())
 	}
+	// rejections with different delays: every source has its own rate (period (i+1) s, burst 1), the clock is
+	// frozen, so after the first admitted request every further one is turned away with that source's own
+	// constant delay; the DEFAULT error handler reports it in X-Retry-In.  Expected values come from a
+	// sequential run of an identical limiter.
+	{
+		const sources = 8
+		perSource := ratelimit.RateExtractorFunc(func(q *http.Request) (*ratelimit.RateSet, error) {
+			var i int
+			fmt.Sscanf(q.Header.Get("X-Src"), "d%d", &i)
+			rs := ratelimit.NewRateSet()
+			if err := rs.Add(time.Duration(i+1)*time.Second, 1, 1); err != nil {
+				return nil, err
+			}
+			return rs, nil
+		})
+		mkl := func() *ratelimit.TokenLimiter {
+			def := ratelimit.NewRateSet()
+			must(def.Add(time.Second, 1, 1))
+			tl, err := ratelimit.New(http.HandlerFunc(func(w http.ResponseWriter, q *http.Request) { w.WriteHeader(200) }), ex, def, ratelimit.ExtractRates(perSource))
+			must(err)
+			return tl
+		}
+		want := map[string]string{}
+		ref := mkl()
+		for i := 0; i < sources; i++ {
+			src := fmt.Sprintf("d%d", i)
+			ref.ServeHTTP(httptest.NewRecorder(), req(src))
+			rec := httptest.NewRecorder()
+			ref.ServeHTTP(rec, req(src))
+			want[src] = rec.Header().Get("X-Retry-In")
+			r.check(rec.Code == 429 && want[src] != "", "delays: sequential reference for %s: code %d X-Retry-In %q", src, rec.Code, want[src])
+		}
+		tl := mkl()
+		var admitted, rejected, wrong int64
+		firstWrong := ""
+		var mu sync.Mutex
+		cc := c
+		cc.iters = c.iters / 2
+		n := hammer(cc, func(w, j int) {
+			src := fmt.Sprintf("d%d", (w+j)%sources)
+			rec := httptest.NewRecorder()
+			tl.ServeHTTP(rec, req(src))
+			if rec.Code == 200 {
+				atomic.AddInt64(&admitted, 1)
+				return
+			}
+			atomic.AddInt64(&rejected, 1)
+			if got := rec.Header().Get("X-Retry-In"); rec.Code != 429 || got != want[src] {
+				atomic.AddInt64(&wrong, 1)
+				mu.Lock()
+				if firstWrong == "" {
+					firstWrong = fmt.Sprintf("source %s: code %d X-Retry-In %q, its own delay is %q", src, rec.Code, got, want[src])
+				}
+				mu.Unlock()
+			}
+		})
+		r.check(admitted == sources && admitted+rejected == n, "delays: requests=%d admitted=%d (want %d) rejected=%d", n, admitted, sources, rejected)
+		r.check(wrong == 0, "delays: %d of %d rejections carried another delay than their source's own (%s)", wrong, rejected, firstWrong)
+		r.kv("delays.rejected", rejected)
+	}
 	// fresh sources: every source is first seen by all goroutines at about the same moment, so that the
 	// creation of its bucket set is contended; burst 2, no refill: exactly 2 admitted per source whatever
 	// the interleaving (a second bucket set created for the same source would admit more: lost debits)
@@ -674,6 +735,107 @@ func stressTTLMap(c cfgT, r *result) {
 	r.kv("live", cnt)
 }
 
+// ---------------------------------------------------------------- sticky sessions
+
+// every cookie kind, on the plain balancer and on the rebalancer: 16 goroutines send cookie-less requests
+// and replay the Set-Cookie they got; every cookie handed out must pin: the replay is answered by the
+// server that answered the first request (pool is stable, so this is exact)
+func stressSticky(c cfgT, r *result) {
+	key := []byte("0123456789abcdef")
+	mk := map[string]func() stickycookie.CookieValue{
+		"raw":  func() stickycookie.CookieValue { return &stickycookie.RawValue{} },
+		"hash": func() stickycookie.CookieValue { return &stickycookie.HashValue{Salt: "salt"} },
+		"aes": func() stickycookie.CookieValue {
+			v, err := stickycookie.NewAESValue(key, 0)
+			must(err)
+			return v
+		},
+		"aes-ttl": func() stickycookie.CookieValue {
+			v, err := stickycookie.NewAESValue(key, time.Hour)
+			must(err)
+			return v
+		},
+		"fallback": func() stickycookie.CookieValue {
+			a, err := stickycookie.NewAESValue(key, time.Hour)
+			must(err)
+			h := &stickycookie.HashValue{Salt: "old"}
+			v, err := stickycookie.NewFallbackValue(h, a)
+			must(err)
+			return v
+		},
+	}
+	kinds := []string{"raw", "hash", "aes", "aes-ttl", "fallback"}
+	var total int64
+	for _, lb := range []string{"rr", "rebalancer"} {
+		for _, kind := range kinds {
+			next := http.HandlerFunc(func(w http.ResponseWriter, q *http.Request) {
+				w.Header().Set("X-Served", q.URL.Host)
+				w.WriteHeader(200)
+			})
+			var h http.Handler
+			var rr *roundrobin.RoundRobin
+			var err error
+			if lb == "rr" {
+				rr, err = roundrobin.New(next, roundrobin.EnableStickySession(roundrobin.NewStickySession("sid").SetCookieValue(mk[kind]())))
+				must(err)
+				h = rr
+				for i := 0; i < 4; i++ {
+					must(rr.UpsertServer(su(i), roundrobin.Weight(i+1)))
+				}
+			} else {
+				rr, err = roundrobin.New(next)
+				must(err)
+				rb, err := roundrobin.NewRebalancer(rr, roundrobin.RebalancerStickySession(roundrobin.NewStickySession("sid").SetCookieValue(mk[kind]())))
+				must(err)
+				h = rb
+				for i := 0; i < 4; i++ {
+					must(rb.UpsertServer(su(i), roundrobin.Weight(i+1)))
+				}
+			}
+			var issued, pinned, nocookie int64
+			first := ""
+			var mu sync.Mutex
+			cc := c
+			cc.iters = c.iters / 20
+			if cc.iters < 50 {
+				cc.iters = 50
+			}
+			n := hammer(cc, func(w, j int) {
+				rec := httptest.NewRecorder()
+				h.ServeHTTP(rec, req("a"))
+				served := rec.Header().Get("X-Served")
+				cs := rec.Result().Cookies()
+				if len(cs) != 1 {
+					atomic.AddInt64(&nocookie, 1)
+					return
+				}
+				atomic.AddInt64(&issued, 1)
+				q := req("a")
+				q.AddCookie(&http.Cookie{Name: cs[0].Name, Value: cs[0].Value})
+				rec2 := httptest.NewRecorder()
+				h.ServeHTTP(rec2, q)
+				if rec2.Header().Get("X-Served") == served {
+					atomic.AddInt64(&pinned, 1)
+				} else {
+					mu.Lock()
+					if first == "" {
+						first = fmt.Sprintf("cookie %q issued by %s, replay answered by %s", cs[0].Value, served, rec2.Header().Get("X-Served"))
+					}
+					mu.Unlock()
+				}
+			}, func(k int) {
+				_ = rr.Servers()
+				_, _ = rr.ServerWeight(su(k % 4))
+			})
+			r.check(nocookie == 0, "%s/%s: %d of %d cookie-less requests got no Set-Cookie", lb, kind, nocookie, n)
+			r.check(pinned == issued, "%s/%s: %d of %d cookies did not pin (%s)", lb, kind, issued-pinned, issued, first)
+			r.kv(lb+"."+kind+".cookies", issued)
+			total += 2 * n
+		}
+	}
+	r.kv("requests", total)
+}
+
 // ---------------------------------------------------------------- a stack of all of them
 
 func stressStack(c cfgT, r *result) {
@@ -765,6 +927,7 @@ var stressTests = map[string]func(cfgT, *result){
 	"rtmetrics":       stressRTMetrics,
 	"ttlmap":          stressTTLMap,
 	"stack":           stressStack,
+	"sticky":          stressSticky,
 }
 
 func stressMain(args []string) {
